@@ -154,6 +154,39 @@ def maxYLengthSquared (Y : A4 (V3 α)) (nPoints : Nat) : Except Err α := do
   let y0 ← Y.get 0
   maxYLoop Y (nPoints - 1) 1 (V3.dot y0 y0)
 
+/-- second half of `_distance_loop`: everything after the solver's answer has been merged into
+`(n_points, search_direction, v_len_sq, simplex)`; `ok` = the solver's success flag (only used
+for the branch id) -/
+def stepTail (Y P Q : A4 (V3 α)) (n : Nat) (prev tolSq : α) (ok : Bool) (sd : V3 α)
+    (vLenSq : α) (simplex : Nat) : Except Err (StepOut α) :=
+  -- four points: the origin is inside the tetrahedron
+  if simplex = 0xf then
+    .ok ⟨.intersection, ⟨Y, P, Q, n, prev, 0, sd⟩, 1, simplex⟩
+  else
+  -- update the points of the simplex
+  match updateSimplexYPQ Y P Q n simplex with
+  | .error e => .error e
+  | .ok (Y, P, Q, n) =>
+    -- v very close to zero
+    if vLenSq ≤ tolSq then
+      .ok ⟨.intersection, ⟨Y, P, Q, n, prev, 0, sd⟩, 2, simplex⟩
+    else
+    -- v very small compared to the length of y
+    match maxYLengthSquared Y n with
+    | .error e => .error e
+    | .ok my =>
+      if vLenSq ≤ EPS * my then
+        .ok ⟨.intersection, ⟨Y, P, Q, n, prev, 0, sd⟩, 3, simplex⟩
+      else
+      -- next separating axis: `search_direction *= -1.0`
+      let sd : V3 α := (-1 : α) * sd
+      -- `assert prev_v_len_sq >= v_len_sq`
+      if ¬ (vLenSq ≤ prev) then .error .assertFail
+      else if prev - vLenSq ≤ EPS * prev then
+        .ok ⟨.noIntersection, ⟨Y, P, Q, n, prev, vLenSq, sd⟩, if ok then 4 else 5, simplex⟩
+      else
+        .ok ⟨.unknown, ⟨Y, P, Q, n, vLenSq, vLenSq, sd⟩, if ok then 6 else 7, simplex⟩
+
 /-- `_distance_loop(p, q, Y, P, Q, n_points, tolerance_sq, prev_v_len_sq, v_len_sq,
 search_direction, max_distance_squared)` -/
 def distanceLoopStep (solve : Solver α) (p q : V3 α) (st : State α) (tolSq maxDistSq : α) :
@@ -162,39 +195,19 @@ def distanceLoopStep (solve : Solver α) (p q : V3 α) (st : State α) (tolSq ma
   let supportPoint := p - q
   let dot := V3.dot st.sd supportPoint
   -- separation of more than max_distance_squared: terminate early
-  if dot < 0 ∧ st.vLenSq * maxDistSq < dot * dot then .ok ⟨.clipped, st, 0, 0⟩ else do
-  -- store the point
-  let Y ← st.Y.set st.nPoints supportPoint
-  let P ← st.P.set st.nPoints p
-  let Q ← st.Q.set st.nPoints q
-  let n := st.nPoints + 1
-  let r ← solve Y n st.prevVLenSq
-  let (sd, vLenSq, simplex, n) :=
-    if r.success then (r.v, r.vLenSq, r.set, n)
-    else (st.sd, st.vLenSq, allBits (n - 1), n - 1)   -- undo add last point
-  let ok := r.success
-  -- four points: the origin is inside the tetrahedron
-  if simplex = 0xf then
-    .ok ⟨.intersection, ⟨Y, P, Q, n, st.prevVLenSq, 0, sd⟩, 1, simplex⟩
-  else do
-  let (Y, P, Q, n) ← updateSimplexYPQ Y P Q n simplex
-  -- v very close to zero
-  if vLenSq ≤ tolSq then
-    .ok ⟨.intersection, ⟨Y, P, Q, n, st.prevVLenSq, 0, sd⟩, 2, simplex⟩
-  else do
-  -- v very small compared to the length of y
-  let my ← maxYLengthSquared Y n
-  if vLenSq ≤ EPS * my then
-    .ok ⟨.intersection, ⟨Y, P, Q, n, st.prevVLenSq, 0, sd⟩, 3, simplex⟩
-  else
-  -- next separating axis: `search_direction *= -1.0`
-  let sd : V3 α := (-1 : α) * sd
-  -- `assert prev_v_len_sq >= v_len_sq`
-  if ¬ (vLenSq ≤ st.prevVLenSq) then .error .assertFail
-  else if st.prevVLenSq - vLenSq ≤ EPS * st.prevVLenSq then
-    .ok ⟨.noIntersection, ⟨Y, P, Q, n, st.prevVLenSq, vLenSq, sd⟩, if ok then 4 else 5, simplex⟩
-  else
-    .ok ⟨.unknown, ⟨Y, P, Q, n, vLenSq, vLenSq, sd⟩, if ok then 6 else 7, simplex⟩
+  if dot < 0 ∧ st.vLenSq * maxDistSq < dot * dot then .ok ⟨.clipped, st, 0, 0⟩ else
+  -- store the point (`n_points += 1`)
+  match st.Y.set st.nPoints supportPoint, st.P.set st.nPoints p, st.Q.set st.nPoints q with
+  | .ok Y, .ok P, .ok Q =>
+    match solve Y (st.nPoints + 1) st.prevVLenSq with
+    | .error e => .error e
+    | .ok r =>
+      if r.success then
+        stepTail Y P Q (st.nPoints + 1) st.prevVLenSq tolSq true r.v r.vLenSq r.set
+      else
+        -- undo add last point (`n_points -= 1`), all remaining bits set
+        stepTail Y P Q st.nPoints st.prevVLenSq tolSq false st.sd st.vLenSq (allBits st.nPoints)
+  | _, _, _ => .error .indexOOB
 
 /-- `calculate_closest_points(Y, P, Q, n_points)`; `none` = the Python's `(None, None)` -/
 def calculateClosestPoints (bary : Bary α) (Y P Q : A4 (V3 α)) (nPoints : Nat) :
